@@ -42,13 +42,16 @@ def chemical(name, ref):
     return _cache[k]
 
 
-def well_conditioned(model, T, h=0.5):
+def well_conditioned(model, T, h=1e-3):
     """does the model's own integral agree with its values? (external-data sanity, not thermosteam logic)"""
     try:
         a = model.T_dependent_property_integral(T - h, T + h) / (2 * h)
         b = model.T_dependent_property_integral_over_T(T - h, T + h) / (2 * h)
         v = model(T)
-        return abs(a - v) <= 1e-6 * abs(v) and abs(b - v / T) <= 1e-6 * abs(v / T)
+        # also from the reference temperature (this is how the functors call it): additivity at the same step
+        a2 = (model.T_dependent_property_integral(298.15, T + h) - model.T_dependent_property_integral(298.15, T - h)) / (2 * h)
+        b2 = (model.T_dependent_property_integral_over_T(298.15, T + h) - model.T_dependent_property_integral_over_T(298.15, T - h)) / (2 * h)
+        return all(abs(p - q) <= 1e-6 * abs(q) for p, q in ((a, v), (a2, v), (b, v / T), (b2, v / T)))
     except Exception:
         return False
 
